@@ -65,7 +65,7 @@ NOT_APPLICABLE = {
 }
 
 # properties that will be claimed but whose check is not built yet
-PENDING = {k: "claimed in DESIGN.md; its check is not built yet in this commit" for k in ("C04 C05 C06 C07 C08 C09 C10 C11 C12 C13 C14 C16").split()}
+PENDING = {k: "claimed in DESIGN.md; its check is not built yet in this commit" for k in ("C10 C11 C12 C13 C14 C16").split()}
 
 PROPS = {}
 
@@ -149,3 +149,81 @@ _p('C15', 'exploration',
               'every step; sampled evidence, not proof',
    technique='deterministic simulation: seeded rebasing + accessor warm-up histories vs first-definer-along-iro model',
    design_ref='DESIGN.md 3/C15', expected_probes=['accessor-0', 'accessor-5', 'rebased-twice'])
+
+REG_CFG = [(C, 6), (PY, 4), (C_H1, 1), (PY_H7, 1)]
+REG_STUB = REAL_STUB + '; registered values, factories and subscribers are simulator stubs (identity-labelled, some equal-but-distinct, some returning None or raising)'
+
+_p('C04', 'exploration',
+   [Part('registry', {'props': ['C04'], 'shape': 'dense'}, configs=REG_CFG, quick=14000, thorough=500000, name='registry/C04/dense'),
+    Part('registry', {'props': ['C04'], 'shape': 'book'}, configs=[(C, 1), (PY, 1)], quick=5000, thorough=200000, name='registry/C04/uniform')],
+   rule='one case = one seeded registration history on 1-3 registries (dense: registrations drawn from the product of the ancestors of one '
+        'multi-adapter key, on related provided interfaces and several names) followed by lookups of a key pool; every lookup/lookupAll result '
+        'is compared with a brute-force model (registry position, then resolution-order positions left to right, then most general provided; '
+        'incomparable provided interfaces: any most-general candidate accepted); distinct_nontrivial = distinct (arity, |registry ro|, '
+        '#acceptable winners, hit/miss) states',
+   assumptions=['positions are taken from the real __sro__ of the looked-up specifications (their correctness is C02/C03)',
+                'provided interfaces are never re-based (documented as unsupported)', REG_STUB],
+   level_text='refinement of the real registry against a brute-force reference model over seeded registration histories; the nested '
+              'containers, reference-counted provided table and history-ordered extendors behind a lookup are simulator-built; sampled evidence',
+   technique='deterministic simulation: seeded dense registration histories vs brute-force RegistryModel',
+   design_ref='DESIGN.md 3/C04', expected_probes=['probe', 'ambiguous-provided', 'overwrite'])
+
+_p('C05', 'exploration',
+   [Part('registry', {'props': ['C05'], 'shape': 'dynamic'}, configs=REG_CFG, quick=9000, thorough=400000, name='registry/C05', timeout=40.0)],
+   rule='one case = one seeded history (8-36 ops) mixing every mutation kind (register/unregister/subscribe/unsubscribe on the registry or a base, '
+        'rebuild, registry __bases__, __bases__ of required interfaces, class and instance declarations) with lookups through all nine entry points '
+        'over a small key pool, plus gc / permute / drop-registry faults; at probe points every key is asked on the warm registries and on a cold '
+        'twin (fresh registries, same mutation history replayed, no lookups), one fresh twin per key and cache family; distinct_nontrivial = '
+        'distinct (entry point, arity, empty?) states',
+   assumptions=['the cold twin shares every non-cache defect with the original, so only cache incoherence can differ', REG_STUB],
+   level_text='differential oracle that is exactly the statement: warm registry vs a registry that performed no earlier lookups after the same '
+              'mutations, over seeded histories with gc/permute faults on the weak invalidation edges; sampled evidence',
+   technique='deterministic simulation: seeded lookup/mutation histories + gc/permute faults, warm registry vs cold-twin replay',
+   design_ref='DESIGN.md 3/C05', expected_probes=['cold-twin', 'mut-register', 'mut-unsubscribe', 'mut-registry-bases', 'mut-interface-bases',
+                                                  'mut-class-declaration', 'mut-instance-declaration', 'mut-rebuild'])
+
+_p('C06', 'exploration',
+   [Part('registry', {'props': ['C06'], 'shape': 'chain'}, configs=REG_CFG, quick=9000, thorough=400000, name='registry/C06', timeout=40.0)],
+   rule='one case = one seeded history over a registry DAG of 3-5 nodes of either flavour (and verifying over invalidating): __bases__ assignment at '
+        'any level, registrations in any member, rebuild of any member, dropped registries, gc / permute faults; at probe points lookup, lookupAll '
+        'and subscriptions from every key are compared with the model evaluated over the model\'s own C3 of the *current* registry DAG, warm and on a cold twin; '
+        'distinct_nontrivial = distinct (arity, |registry ro|, #acceptable winners, hit/miss) states',
+   assumptions=['registry DAGs are kept C3-consistent and acyclic; an invalidating registry only gets invalidating bases (documented constraint)', REG_STUB],
+   level_text='seeded search over registry re-basing histories (weak, ordered sub-registry links; generation snapshots) against a model that recomputes '
+              'the base chain from the current DAG; sampled evidence',
+   technique='deterministic simulation: seeded registry-DAG rebasing histories + gc/permute faults vs RegistryModel over the current DAG',
+   design_ref='DESIGN.md 3/C06', expected_probes=['rebase-registry-with-subregistries', 'rebase-registry-two-levels-above-bottom', 'rebuild-of-a-base-registry'])
+
+_p('C07', 'exploration',
+   [Part('registry', {'props': ['C07'], 'shape': 'subs'}, configs=REG_CFG, quick=12000, thorough=500000, name='registry/C07')],
+   rule='one case = one seeded subscribe/unsubscribe history (duplicates, equal-but-distinct values, handlers, arity 0-3, registry chains); at probe '
+        'points subscriptions() of every key is compared with the model list of live subscriptions as a multiset and for the specified part of the '
+        'order (base registries first; less specific required keys first, component-wise for arity >= 2; identical keys in subscription order); '
+        'distinct_nontrivial = distinct (arity, #results, handler?, |registry ro|) states',
+   assumptions=['order between different provided interfaces under the same required key is not demanded (the statement is silent)', REG_STUB],
+   level_text='seeded search over subscription histories against a flat model list; sampled evidence',
+   technique='deterministic simulation: seeded subscribe/unsubscribe histories vs model list (multiset + specified order)',
+   design_ref='DESIGN.md 3/C07', expected_probes=['duplicate-subscription', 'unsubscribe-equal-but-distinct', 'unsubscribe-removed-several'])
+
+_p('C08', 'exploration',
+   [Part('registry', {'props': ['C08'], 'shape': 'dynamic', 'raising_factories': True}, configs=REG_CFG, quick=8000, thorough=300000,
+         name='registry/C08', timeout=40.0)],
+   rule='one case = one seeded history; at probe points, for every key, the nine entry points are called on the warm registry in a PRNG-chosen '
+        'permutation (warm-up schedule) and each is compared with lookup()/subscriptions() of a cold twin composed with the stub factories '
+        '(None-returning and raising factories are injected faults); defaults by identity, non-string names on every path; distinct_nontrivial = '
+        'distinct (arity, hit?, #subscriptions, #names, object key?) states',
+   assumptions=[REG_STUB],
+   level_text='relational oracle over seeded histories and warm-up permutations with callback faults; sampled evidence',
+   technique='deterministic simulation: seeded histories x entry-point warm-up permutations + factory faults vs cold-twin lookup()/subscriptions()',
+   design_ref='DESIGN.md 3/C08', expected_probes=['cold-twin'])
+
+_p('C09', 'exploration',
+   [Part('registry', {'props': ['C09'], 'shape': 'book'}, configs=REG_CFG, quick=12000, thorough=500000, name='registry/C09')],
+   rule='one case = one seeded register/unregister/subscribe/unsubscribe/rebuild history (overwrites, identical and equal-but-distinct values, '
+        'register(None), removal of the last entry of a nested container); after every op registered/allRegistrations/allSubscriptions/subscribed '
+        'are compared with the model; rebuild() and replay-into-an-empty-registry must answer every unambiguous key identically; '
+        'distinct_nontrivial = distinct (#live registrations, #live subscriptions) states',
+   assumptions=[REG_STUB],
+   level_text='seeded search over bookkeeping histories against a model dict/list, plus rebuild/replay equivalence; sampled evidence',
+   technique='deterministic simulation: seeded bookkeeping histories vs model dict + rebuild/replay equivalence',
+   design_ref='DESIGN.md 3/C09', expected_probes=['overwrite', 'identical-re-registration', 'register-None', 'last-entry-of-arity-removed', 'replay-into-empty'])
